@@ -65,38 +65,104 @@ func secretStoreMethod(w *World, name string) *ssa.Function {
 	return w.methodOf(t, name)
 }
 
-// isCounterGuardReturn: r is dominated by one side of a comparison between two Counter
-// fields of DeviceChainKey values (the monotone "never move backwards" guard).
-func isCounterGuardReturn(r *ssa.Return) bool {
-	fn := r.Parent()
-	for _, b := range fn.Blocks {
-		if len(b.Instrs) == 0 {
-			continue
-		}
-		ifi, ok := b.Instrs[len(b.Instrs)-1].(*ssa.If)
-		if !ok || !isCounterCompare(ifi.Cond) {
-			continue
-		}
-		for _, s := range b.Succs {
-			if edgeDominates(edge{b, s}, r.Block()) {
+// counterGuard returns a predicate: r is dominated by the side of a comparison between the
+// Counter of a candidate chain key and the Counter of the stored chain key (a value obtained
+// from a Get on the chain-key namespace) on which candidate <= stored — the monotone "never
+// move backwards" guard, the only early success return tolerated in an updater.
+func counterGuard(w *World) ExemptReturn {
+	return func(r *ssa.Return) bool {
+		fn := r.Parent()
+		for _, b := range fn.Blocks {
+			if len(b.Instrs) == 0 {
+				continue
+			}
+			ifi, ok := b.Instrs[len(b.Instrs)-1].(*ssa.If)
+			if !ok {
+				continue
+			}
+			side, ok := staleSide(w, ifi.Cond)
+			if !ok {
+				continue
+			}
+			if edgeDominates(edge{b, b.Succs[side]}, r.Block()) {
 				return true
 			}
 		}
+		return false
 	}
-	return false
 }
 
-func isCounterCompare(cond ssa.Value) bool {
+// staleSide analyses cond as a comparison of two chain-key counters, one of them read from the
+// stored chain key. It returns the successor index (0 = true edge, 1 = false edge) taken when
+// candidate <= stored (or <).
+func staleSide(w *World, cond ssa.Value) (int, bool) {
 	bo, ok := cond.(*ssa.BinOp)
-	if !ok {
+	if !ok || !isChainCounterLoad(bo.X) || !isChainCounterLoad(bo.Y) {
+		return 0, false
+	}
+	xs, ys := isStoredChainKey(w, counterBase(bo.X)), isStoredChainKey(w, counterBase(bo.Y))
+	if xs == ys {
+		return 0, false // cannot tell which is the stored one
+	}
+	// normalise to: candidate OP stored
+	op := bo.Op
+	if xs { // stored OP candidate  ==> candidate (flipped OP) stored
+		switch op {
+		case token.LSS:
+			op = token.GTR
+		case token.LEQ:
+			op = token.GEQ
+		case token.GTR:
+			op = token.LSS
+		case token.GEQ:
+			op = token.LEQ
+		}
+	}
+	switch op {
+	case token.LSS, token.LEQ:
+		return 0, true
+	case token.GTR, token.GEQ:
+		return 1, true
+	}
+	return 0, false
+}
+
+func counterBase(v ssa.Value) ssa.Value {
+	switch x := v.(type) {
+	case *ssa.UnOp:
+		if fa, ok := x.X.(*ssa.FieldAddr); ok {
+			return fa.X
+		}
+	case *ssa.Call:
+		if len(x.Common().Args) == 1 {
+			return x.Common().Args[0]
+		}
+	}
+	return nil
+}
+
+// isStoredChainKey: v is (a result of) a call whose effects include a Get on the chain-key namespace.
+func isStoredChainKey(w *World, v ssa.Value) bool {
+	if v == nil {
 		return false
 	}
-	switch bo.Op {
-	case token.LSS, token.LEQ, token.GTR, token.GEQ:
-	default:
+	var call *ssa.Call
+	switch x := v.(type) {
+	case *ssa.Extract:
+		call, _ = x.Tuple.(*ssa.Call)
+	case *ssa.Call:
+		call = x
+	}
+	if call == nil {
 		return false
 	}
-	return isChainCounterLoad(bo.X) && isChainCounterLoad(bo.Y)
+	ei := w.effects()
+	for _, s := range ei.sitesIn(call.Parent()) {
+		if s.Instr == ssa.CallInstruction(call) && s.has(eff("Get", nsChainKey)) {
+			return true
+		}
+	}
+	return false
 }
 
 // isChainCounterLoad: v reads the Counter field of a protocoltypes.DeviceChainKey.
@@ -203,7 +269,7 @@ func runC10(c *Ctx) {
 	}
 
 	// ---- D2 seal path
-	okSeal, by := ei.mustPerform(seal, putChain, isCounterGuardReturn, 0)
+	okSeal, by := ei.mustPerform(seal, putChain, counterGuard(w), 0)
 	c.analysed(seal)
 	c.check(okSeal, "D2", fnName(seal)+"+persist-before-return", seal.Pos(),
 		"every success return is dominated by an accepted Put of the chain key", "an envelope can be returned before the chain key it used is durable (returns at "+describeReturns(c, by)+")")
